@@ -159,6 +159,37 @@ type KnowledgeBase struct {
 	RuleEntries   map[string]*RuleEntry
 }
 
+// Checkpoint remembers the rule entries and the working memory nodes of this knowledge base and returns a
+// function that puts them back. A builder calls that function when the resource it was loading turns out
+// to be invalid, so that a rejected resource leaves neither a rule nor an orphan AST node behind.
+func (e *KnowledgeBase) Checkpoint() (restore func()) {
+	entries := make(map[string]*RuleEntry, len(e.RuleEntries))
+	for key, value := range e.RuleEntries {
+		entries[key] = value
+	}
+	mem := e.WorkingMemory
+	expressions := make(map[string]*Expression, len(mem.expressionSnapshotMap))
+	for key, value := range mem.expressionSnapshotMap {
+		expressions[key] = value
+	}
+	atoms := make(map[string]*ExpressionAtom, len(mem.expressionAtomSnapshotMap))
+	for key, value := range mem.expressionAtomSnapshotMap {
+		atoms[key] = value
+	}
+	variables := make(map[string]*Variable, len(mem.variableSnapshotMap))
+	for key, value := range mem.variableSnapshotMap {
+		variables[key] = value
+	}
+
+	return func() {
+		e.RuleEntries = entries
+		mem.expressionSnapshotMap = expressions
+		mem.expressionAtomSnapshotMap = atoms
+		mem.variableSnapshotMap = variables
+		mem.IndexVariables()
+	}
+}
+
 // MakeCatalog will create a catalog entry for all AST Nodes under the KnowledgeBase
 // the catalog can be used to save the knowledge base into a Writer, or to
 // rebuild the KnowledgeBase from it.
